@@ -11,8 +11,22 @@ from .ir import AnalysisBroken, strip, walk, show, int_val
 from .report import Result, COMMON_ASSUMPTIONS
 
 
-def implies(p, q):
-    return lambda fs: (not p(fs)) or q(fs)
+PREMISE_HITS = {}
+
+
+def implies(p, q, tag=None):
+    """p => q on a success path; the premise must be seen on some success path of the current tree, otherwise the rule
+    would hold vacuously (checked after the run: a vanished premise is an analysis failure, not a pass)"""
+    if tag is not None:
+        PREMISE_HITS.setdefault(tag, 0)
+
+    def pred(fs):
+        if not p(fs):
+            return True
+        if tag is not None:
+            PREMISE_HITS[tag] += 1
+        return q(fs)
+    return pred
 
 
 DATE_GIVEN = CMP(True, r"^date$")
@@ -69,9 +83,9 @@ CVC_RULES = [
     ("btokCVCVal", [("issuer certificate parsed (btokCVCUnwrap(.., 0, 0))", lambda fs: any(x[0] == "ok" and re.match(r"btokCVCUnwrap\([^,]+,certa,certa_len,0,0\)$", x[1]) for x in fs))] + VAL_REQ),
     ("btokCVCVal2", VAL_REQ),
     ("btokCVCUnwrap", [
-        ("key given => signature verified (btokVerify)", implies(CMP(True, r"^pubkey_len$"), OK("btokVerify("))),
+        ("key given => signature verified (btokVerify)", implies(CMP(True, r"^pubkey_len$"), OK("btokVerify("), tag="btokCVCUnwrap: key given")),
         ("verification on the certificate's own key requested (pubkey == cvc->pubkey, pubkey_len == 0) => signature "
-         "verified (btokVerify)", implies(CMP(True, r"^\(pubkey==cvc->pubkey\)$"), OK("btokVerify("))),
+         "verified (btokVerify)", implies(CMP(True, r"^\((pubkey==cvc->pubkey|cvc->pubkey==pubkey)\)$"), OK("btokVerify("), tag="btokCVCUnwrap: self-key form")),
         ("outer SEQUENCE closed (derTSEQDecStop)", CMP(False, r"^derTSEQDecStop\(.*==")),
         ("no trailing octets", CMP(False, r"cert_len!=0")),
         ("content check (btokCVCCheck)", OK("btokCVCCheck(cvc")),
@@ -291,6 +305,9 @@ def run(tier, seed=0):
         vprules.check_must(prog, res, "R17.1-chain-validation-complete" if fn.startswith("btok") else "R17.3-container-release",
                            fn, req, post_nonzero=pnz)
         n += len(req)
+    vanished = [t for t, n_ in PREMISE_HITS.items() if n_ == 0]
+    if vanished:
+        raise AnalysisBroken("premise of a conditional obligation no longer occurs on any success path: %s" % ", ".join(vanished))
     table = mustcall.load_table("token.json")
     n += mustcall.check_table(prog, res, "R17.1-content-checks", table)
     check_sm(prog, res)
